@@ -191,7 +191,8 @@ def ref_merge_value(v1, v2, joins):
     keep1 = [a for a in range(v1.ndim) if a not in {j[0] for j in joins}]
     keep2 = [a for a in range(v2.ndim) if a not in {j[1] for j in joins}]
     out = np.zeros([v1.shape[a] for a in keep1] + [v2.shape[a] for a in keep2], dtype=complex)
-    g = np.indices(list(v1.shape) + list(v2.shape)).reshape(v1.ndim + v2.ndim, -1)
+    nd = v1.ndim + v2.ndim
+    g = np.indices(list(v1.shape) + list(v2.shape)).reshape(nd, -1) if nd else np.zeros((0, 1), dtype=int)
     mask = np.ones(g.shape[1], dtype=bool)
     for a, b in joins:
         mask &= g[a] == g[v1.ndim + b]
